@@ -115,6 +115,29 @@ Proof.
 Qed.
 Print Assumptions C01_end_to_end_machine_partial.
 
+(* ... and with the input-only side conditions of C01_compiled_equals_source_nofall_partial *)
+Theorem C01_end_to_end_machine_nofall_partial :
+  forall (U V P : Type)
+         (aden : nat -> U -> outcome U P unit) (cden : nat -> U -> outcome U P bool)
+         (tden : nat -> U -> outcome U P nat) (kval : nat -> nat) (yden : nat -> U -> outcome U P V)
+         (env : nat -> V -> U -> U * bool) (zeroV : V)
+         (body : list stmt),
+    c01_hyps_nf body = true ->
+    exists out, rewrite body = OK out /\
+      (forallb (lk KS) out = true ->
+       forall n u f,
+         run_source aden cden tden kval yden env n body u = Some f -> f <> FStuck ->
+         exists M, forall N F, M <= N -> M <= F ->
+           machine_target U V P aden cden tden kval yden env zeroV KS out u N F = Some f).
+Proof.
+  intros U V P aden cden tden kval yden env zeroV body Hh.
+  destruct (compiler_correct_nofall U V P aden cden tden kval yden env body Hh) as [out [Ho [_ Hsim]]].
+  exists out. split; [exact Ho|]. intros Hlk n u f Hs Hns.
+  destruct (Hsim n u f Hs Hns) as [m Hm].
+  exact (machine_link U V P aden cden tden kval yden env zeroV KS out m u f Hlk Hm Hns).
+Qed.
+Print Assumptions C01_end_to_end_machine_nofall_partial.
+
 Example C01_end_to_end_hyps_hold :
   match rewrite [SFor (Some (SAtom 1)) (Some 2) (Some (SAtom 3)) [SYield 4; SIf None 5 [SBreak] ENone; SAtom 6]; SYield 7; SReturn] with
   | OK out => forallb (lk KS) out
